@@ -246,3 +246,5 @@ def _version_block_wrapped(stmts):
     closed = "commit" in after
     inner = [st.kind for st in stmts[lo:hi + 1]]
     return opened and closed and "commit" not in inner
+
+EXPLANATION += ' Batch 6: a path that runs an upgrade script has no file-system event besides exists, connect and the backup copy.'
